@@ -220,7 +220,11 @@ def webenc_codec(enc):
 
 # ---------------------------------------------------------------------------
 _NEWLINES = st.sampled_from(["\r", "\n", "\r\n", "\r\r", "\n\r", "\r\n\r\n", "\ud800", "\udc00", "\U0001f600", "\U0001F600", "\u00e9", "\u8a9e", "&amp;", "&#x41;", "<b>", "</b>", "<!--c-->", "a", " ",
-                             "\x00", "\x01", "\ufffe", "<p a='\r\n'>", "<!DOCTYPE html>\r\n", "x\r"])
+                             "\x00", "\x01", "\ufffe", "<p a='\r\n'>", "<!DOCTYPE html>\r\n", "x\r",
+                             # constructs after which the tokenizer pushes many characters back (entity-name prefixes that match no entity,
+                             # failed markup declarations), followed by something that reports an error on the same line
+                             "&CounterClockwiseContourIntegra</x y=1 y=2>", "&DoubleLongLeftRightArro!&#0;", "<a b=\"&NotSquareSupersetEqua\" b=2>", "&NotNestedGreaterGreate;</>",
+                             "&ClockwiseContourIntegr&", "<!DOCTYP", "<!doctyp?>", "<![CDAT", "<!-x>", "<svg><![CDATx"])
 
 
 import re
